@@ -197,6 +197,9 @@ func runNative(pkgDir string, cases []nativeCase, race bool) ([]nativeResult, er
 			results = append(results, r)
 		}
 	}
+	if strings.Contains(outb.String(), "[build failed]") || strings.Contains(outb.String(), "[setup failed]") {
+		return nil, fmt.Errorf("native harness build failed:\n%s", tail(outb.String(), 1500))
+	}
 	if len(results) < len(cases) {
 		// the test binary died (fatal error such as a concurrent map write, or a race report
 		// with halt_on_error): attribute it to the first case without a result
